@@ -1,5 +1,6 @@
 """C17 - required variables, name resolution order and '.' expansion are exact."""
 import itertools
+import re
 
 import numpy as np
 import pandas as pd
@@ -52,6 +53,9 @@ FACTORS = [
     ("b", ["b"]),
     ("log(`a b`)", ["a b"]),
     ("{a.sum()}", ["a"]),
+    ("log(`a.real`)", ["a.real"]),         # a dotted column name used inside a call
+    ("`n:s`", ["n:s"]),                    # a column name containing a colon
+    ("{`n:s` + `a b`}", ["n:s", "a b"]),
 ]
 LHS = [("", []), ("y ~ ", ["y"]), ("log(y) ~ ", ["y"]), ("`y z` ~ ", ["y z"])]
 
@@ -61,6 +65,7 @@ COLUMNS = {
     "A": ["x", "y", "z", "x", "y", "z"],
     "a b": [1.5, 2.5, 0.5, 4.0, 6.0, 3.0],
     "a.real": [9.0, 8.0, 7.0, 5.0, 6.0, 4.0],
+    "n:s": [2.0, 4.0, 8.0, 1.0, 3.0, 9.0],
     "y": [1.0, 2.0, 4.0, 3.0, 6.0, 5.0],
     "y z": [3.0, 1.0, 2.0, 6.0, 4.0, 5.0],
     "zz": [0.5, 0.25, 0.75, 1.0, 2.0, 3.0],
@@ -232,7 +237,7 @@ def drv_resolution(c, ctx, col):
     from formulaic.transforms import TRANSFORMS
 
     role = c.pick(["value", "callable"])
-    name = c.pick(["vq", "log"] if role == "value" else ["fq", "log", "center"])
+    name = c.pick(["vq", "log", "v.q", "v q"] if role == "value" else ["fq", "log", "center"])
     in_data = c.flag()
     in_ctx = c.flag()
     template = c.pick(["NAME", "probe(NAME)", "{NAME + 0}"] if role == "value" else ["NAME(a)", "probe(NAME(a))"])
@@ -240,7 +245,10 @@ def drv_resolution(c, ctx, col):
     side = c.pick(["rhs", "lhs"])
     in_tr = name in TRANSFORMS
     assert in_tr == (name in ("log", "center"))
-    text = template.replace("NAME", name) + (" - 1" if side == "rhs" else " ~ a - 1")
+    special = not name.isidentifier()  # a name that must be back-quoted (contains '.' or ' ')
+    if special and route == "model_matrix(caller's frame)":
+        raise Skip()  # a Python frame cannot hold such a name
+    text = template.replace("NAME", "`%s`" % name if special else name) + (" - 1" if side == "rhs" else " ~ a - 1")
 
     data = {"a": DATA_A}
     if in_data:
@@ -339,19 +347,29 @@ def drv_resolution(c, ctx, col):
 # '.' expansion
 
 POOL = ["x", "y", "w v"]
-DOT_VALUES = {"x": [1.0, 2.0, 3.0, 5.0], "y": [2.0, 1.0, 0.5, 3.0], "w v": [1.5, 2.5, 3.5, 4.5], "z": [4.0, 3.0, 2.0, 1.0]}
+DOT_VALUES = {"x": [1.0, 2.0, 3.0, 5.0], "y": [2.0, 1.0, 0.5, 3.0], "w v": [1.5, 2.5, 3.5, 4.5], "z": [4.0, 3.0, 2.0, 1.0],
+              "S.L": [5.1, 4.9, 4.7, 4.6], "S": [0.5, 1.5, 2.5, 3.0], "S.W": [3.5, 3.0, 3.2, 3.1], "n:s": [7.0, 6.0, 8.0, 9.0]}
+SPECIAL_POOL = ["S.L", "S", "S.W", "n:s", "w v"]   # dotted names sharing the prefix `S`, the prefix itself, a colon, a space
 
 
 def q(n):
     return n if n.isidentifier() else "`%s`" % n
 
 
+def q_dots(n):
+    """dotted names are valid bare names in a formula (R style); everything else that is not an identifier is back-quoted"""
+    return n if re.fullmatch(r"[A-Za-z_][\w.]*", n) else "`%s`" % n
+
+
 LHS_FORMS = {
     "plain": lambda L: " + ".join(q(n) for n in L),
+    "plain, dotted names unquoted": lambda L: " + ".join(q_dots(n) for n in L),
     "log(first)": lambda L: " + ".join(["log(%s)" % q(L[0])] + [q(n) for n in L[1:]]),
     "{sum}": lambda L: "{" + " + ".join(q(n) for n in L) + "}",
     "{first.abs()}": lambda L: " + ".join(["{%s.abs()}" % q(L[0])] + [q(n) for n in L[1:]]),
 }
+DOT_FORMS = ["plain", "log(first)", "{sum}", "{first.abs()}"]
+SPECIAL_FORMS = ["plain", "plain, dotted names unquoted", "log(first)", "{sum}"]
 DOT_ROUTES = ["model_matrix", "Formula.from_spec(context=available)", "Formula(_context=available)",
               "parser(include_intercept=True)", "parser(include_intercept=False)"]
 
@@ -369,6 +387,8 @@ def drv_dot(c, ctx, col):
     if L:
         form = c.pick(ctx["lhs_forms"])
         text = LHS_FORMS[form](L) + " ~ ."
+        if form == "plain, dotted names unquoted" and text == LHS_FORMS["plain"](L) + " ~ .":
+            raise Skip()  # identical to the 'plain' form
     else:
         form = c.pick(["'.'", "'~ .'"])
         text = "." if form == "'.'" else "~ ."
@@ -396,7 +416,7 @@ def drv_dot(c, ctx, col):
             if set(f._structure) == {"root"}:
                 f = f.root
         rhs = f.rhs if L else f
-        names = [str(t) for t in rhs]
+        names = ["1" if str(t) == "1" else ":".join(f.expr for f in t.factors) for t in rhs]  # raw column names, not printed forms
         got.append(("1" in names[:1], [n for n in names if n != "1"] if names[:1] == ["1"] else names))
 
     o = outcome(run)
@@ -416,8 +436,9 @@ def drv_dot(c, ctx, col):
             # which construct hid the variable from the parser (two different root causes, see notes/c17.md)
             method = form == "{first.abs()}" and L[0] in extra
             quoted = any(not n.isidentifier() for n in extra if not (method and n == L[0]))
+            qlabel = "quoted-name-in-python-factor" if form in ("log(first)", "{sum}", "{first.abs()}") else "specially-named-column"
             sig = "dot-includes-lhs-variable:" + ("+".join((["method-call-object"] if method else []) +
-                                                           (["quoted-name-in-python-factor"] if quoted else [])) or "plain-use")
+                                                           ([qlabel] if quoted else [])) or "plain-use")
         else:
             sig = "dot-expansion-wrong"
         col.violation("%s :: %r :: %s" % (sig, text, cfg), dict(detail, got_dot=names, got_intercept=has_icpt, lhs_form=form), sig=sig)
@@ -433,6 +454,7 @@ def subchecks(tier, seed):
     shapes = ["single", "sum", "interaction"] + ([] if quick else ["sum+interaction"])
     lhs = LHS[:2] if quick else LHS
     pool = POOL if quick else POOL + ["z"]
+    spool = SPECIAL_POOL if quick else SPECIAL_POOL + ["x"]
     bounds_req = {"factors": [f[0] for f in facs], "shapes": {"single": "f", "sum": "f1 + f2", "interaction": "f1:f2",
                                                               "sum+interaction": "f1 + f2:f3 (f2 before f3 in the list)"},
                   "shapes_used": shapes, "pairs": "unordered (i<j)" if quick else "ordered (i!=j)",
@@ -442,11 +464,16 @@ def subchecks(tier, seed):
     return [
         Sub("required", drv_required, {"factors": facs, "ordered": not quick, "lhs": lhs, "shapes": shapes}, shard_depth=3, bounds=bounds_req),
         Sub("resolution", drv_resolution, {}, shard_depth=4,
-            bounds={"value_names": ["vq (not a transform)", "log (a transform)"], "callable_names": ["fq", "log", "center"],
+            bounds={"value_names": ["vq (not a transform)", "log (a transform)", "`v.q` (dotted, back-quoted)", "`v q` (space, back-quoted)"], "callable_names": ["fq", "log", "center"],
                     "layers": "all 2^3 combinations of {data, context, transforms} per role",
                     "templates": ["NAME", "probe(NAME)", "{NAME + 0}", "NAME(a)", "probe(NAME(a))"], "sides": ["rhs", "lhs"],
                     "entry_points": RES_ROUTES}),
-        Sub("dot", drv_dot, {"lhs_forms": list(LHS_FORMS), "pool": pool, "max_cols": 3 if quick else 4}, shard_depth=3,
+        Sub("dot", drv_dot, {"lhs_forms": DOT_FORMS, "pool": pool, "max_cols": 3 if quick else 4}, shard_depth=3,
             bounds={"column_pool": pool, "column_lists": "every ordered list of <= %d distinct names" % (3 if quick else 4),
-                    "lhs": "every subset of the columns", "lhs_forms": list(LHS_FORMS) + ["'.'", "'~ .'"], "entry_points": DOT_ROUTES}),
+                    "lhs": "every subset of the columns", "lhs_forms": DOT_FORMS + ["'.'", "'~ .'"], "entry_points": DOT_ROUTES}),
+        Sub("dot-special-names", drv_dot, {"lhs_forms": SPECIAL_FORMS, "pool": spool, "max_cols": 3 if quick else 4}, shard_depth=3,
+            bounds={"column_pool": spool, "column_lists": "every ordered list of <= %d distinct names" % (3 if quick else 4),
+                    "lhs": "every subset of the columns", "lhs_forms": SPECIAL_FORMS + ["'.'", "'~ .'"], "entry_points": DOT_ROUTES,
+                    "note": "column names containing '.', ':' and ' ' in every role: used on the LHS bare / quoted / inside a call / "
+                            "inside braces, and as unused columns that '.' must list; includes a column equal to the prefix of dotted names"}),
     ]
